@@ -237,6 +237,34 @@ def run(ctx: Ctx) -> None:
             ctx.ob("R11.6", f"parser:CxxParser.{fname}|no separator consumed before get_doxygen_after()", not uniq,
                    msg=f"{fname} consumes the token that ends the declaration ({', '.join(uniq[:3])}) before it looks for the trailing comment: fetching that token discards the comment, so a declaration that is "
                        "followed by the closing brace on the next line loses its same-line documentation", node=n.stmt, mod=mod)
+    # once a body has been skipped the declaration is over: a token accessor called after that - even one that "only
+    # looks", like token_if(';') - fetches the next real token and throws away the comments in front of it, i.e. the doc
+    # block of the next declaration
+    for fname, fn in pm.methods.items():
+        if fname == "_discard_ctor_initializer":
+            continue  # there '{' also opens a braced member initializer; that the body skip is followed by `return` is R13.6
+        cfg = pm.cfg(fname)
+        for n in cfg.nodes:
+            for c, r in pm.node_calls(fname, n):
+                if r != ("self", "_discard_contents") or not (c.args and isinstance(c.args[0], ast.Constant) and c.args[0].value == "{"):
+                    continue
+                late = []
+                seen = set()
+                st = [s_ for s_, lab in n.succ if lab != "exc"]
+                while st:
+                    x = st.pop()
+                    if x.id in seen or x is cfg.exit:
+                        continue
+                    seen.add(x.id)
+                    if x.kind == "test" and x.loop is not None:
+                        continue  # back in a loop of the caller's making: the next element is its own business
+                    for cc, rr in pm.node_calls(fname, x):
+                        if rr is not None and rr[0] == "lex" and (rr[1] in LEX_CONSUME or rr[1].startswith("token")):
+                            late.append(short(cc, 40))
+                    st.extend(s_ for s_, lab in x.succ if lab != "exc")
+                ctx.ob("R11.6", f"parser:CxxParser.{fname}|nothing is fetched after the body has been skipped #{_nth_call(pm, fname, c)}", not late,
+                       msg=f"after the body is skipped {fname} calls {sorted(set(late))[:3]}: the accessor fetches the next real token and drops the comments before it - the documentation of the declaration that follows a function body is lost",
+                       node=c, mod=mod)
     # aliases of the getters are only called where they are bound (parse binds get_doxygen locally) - covered by resolve()
 
     # ---------------------------------------------------------------- R11.4
@@ -452,6 +480,16 @@ def _reaches_without(cfg: CFG, start: Node, stops: List[Node]) -> bool:
             return True
         st.extend(s for s, lab in x.succ if lab != "exc")
     return False
+
+
+def _nth_call(pm: ParserModel, fname: str, call: ast.Call) -> int:
+    i = 0
+    for c in walk_local(pm.fn(fname)):
+        if isinstance(c, ast.Call) and pm.resolve(fname, c) == ("self", "_discard_contents"):
+            if c is call:
+                return i
+            i += 1
+    return -1
 
 
 OTHER = "<any other token>"
